@@ -216,3 +216,15 @@ Theorem clone_is_one_critical_section :
   forallb (fun e => strs_eqb (ev_ctx e) ["fn#1:safelyRead"]) (firstn 8 (skipn 2 l)) = true /\
   map ev_name (firstn 8 (skipn 2 l)) = ["walkOne"; "new fidRef"; "hasParent"; "isDeleted"; "nameFor"; "addChild"; "IncRef"; "IncRef"].
 Proof. vm_compute. repeat split; reflexivity. Qed.
+
+(** C05 (renameChildTo, fault path): the references taken on the fidRefs that notifyNameChange tells (collected
+    in the list [var0], passed to notifyNameChange) are dropped by a loop that is DEFERRED and registered before
+    notifyNameChange is called - so a panic inside a Renamed callback (recovered per request) still gives them
+    back.  The model has no backend panic (its theorems are about backends that answer); this is what the
+    fault scenario vhgRenamedPanic exercises on the real server. *)
+Theorem held_references_released_by_defer :
+  let l := events_of "fidRef.renameChildTo" refs_skeleton in
+  map (fun e => (ev_name e, ev_recv e, ev_args e, ev_cond e, ev_ctx e)) (skipn 9 l) =
+  [("DecRef", "each1(var0)", [], ["(#1!=nil)"], ["defer"; "range var0"]);
+   ("notifyNameChange", "", ["#1"; "var0"], ["(#1!=nil)"], [])].
+Proof. vm_compute. reflexivity. Qed.
